@@ -19,6 +19,13 @@ def handle (s : St) (toks : List String) : St × String :=
       ({ limit := st, next := s.next + flags.length },
        "yield=" ++ (if out.isEmpty then "-" else ",".intercalate (out.map toString)) ++
        " limit=" ++ (match st with | none => "none" | some n => toString n))
+  | ["wrap", l, n] =>
+      -- a convenience wrapper with limit `l` (`none` or an integer) over a query that has `n` rows
+      match (if l == "none" then some none else l.toInt?.map some), n.toNat? with
+      | some lim, some n =>
+        let (rows, warn) := wrapper lim (List.range n)
+        (s, s!"rows={rows.length} first={rows.length == (rows.zip (List.range n)).countP (fun p => p.1 == p.2)} warn={warn}")
+      | _, _ => (s, "bad-op")
   | _ => (s, "bad-op")
 
 end Driver.C16
